@@ -42,6 +42,9 @@ type Program struct {
 	chaCG *callgraph.Graph
 
 	declOf map[*types.Func]*FuncSyntax
+
+	// Renamed records anchors that were resolved by signature because their name changed.
+	Renamed map[string]string
 }
 
 // FuncSyntax ties a declared function to its syntax.
@@ -110,6 +113,7 @@ func Load(dir string, overlay map[string][]byte) (*Program, error) {
 	p.SSA = prog
 	p.AllFuncs = ssautil.AllFunctions(prog)
 	p.TreeHash = treeHash(dir, p.Roots)
+	p.ResolveAnchors()
 	p.LoadSecs = time.Since(t0).Seconds()
 	return p, nil
 }
@@ -190,6 +194,97 @@ func (p *Program) Syntax(fn *types.Func) *FuncSyntax { return p.declOf[fn] }
 // LookupFunc resolves "pkgrel.Func" or "pkgrel.(*T).M" / "pkgrel.(T).M" to the SSA function.
 // pkgrel is the path relative to the module ("" for the root package, written as "s3db").
 func (p *Program) LookupFunc(pkgRel, recv, name string) *ssa.Function {
+	fn := p.lookupFuncByName(pkgRel, recv, name)
+	key := pkgRel + "|" + recv + "|" + name
+	if fn != nil {
+		if rec := os.Getenv("S3DBCHECK_RECORD_ANCHORS"); rec != "" {
+			if f, err := os.OpenFile(rec, os.O_APPEND|os.O_CREATE|os.O_WRONLY, 0o644); err == nil {
+				fmt.Fprintf(f, "%s\t%s\n", key, anchorSig(fn))
+				f.Close()
+			}
+		}
+		return fn
+	}
+	// renamed? fall back to the unique function of the same package and receiver with the
+	// signature recorded for this anchor on the reference tree
+	want, ok := AnchorSignatures[key]
+	if !ok {
+		return nil
+	}
+	pk := p.Pkg(pkgRel)
+	if pk == nil {
+		return nil
+	}
+	var cands []*ssa.Function
+	for f := range p.AllFuncs {
+		if f.Pkg == nil || f.Pkg.Pkg != pk.Types || f.Parent() != nil || len(f.Blocks) == 0 || f.Synthetic != "" {
+			continue
+		}
+		if anchorSig(f) == want {
+			cands = append(cands, f)
+		}
+	}
+	if len(cands) == 1 {
+		if p.Renamed == nil {
+			p.Renamed = map[string]string{}
+		}
+		p.Renamed[key] = cands[0].Name()
+		// keep reporting (and matching exception tables) under the anchor's reference name
+		pkgName := pkgRel
+		if pkgName == "" {
+			pkgName = "s3db"
+		}
+		disp := pkgName + "." + name
+		if recv != "" {
+			if strings.HasPrefix(recv, "*") {
+				disp = "(*" + pkgName + "." + recv[1:] + ")." + name
+			} else {
+				disp = "(" + pkgName + "." + recv + ")." + name
+			}
+		}
+		displayOverride[cands[0]] = disp
+		return cands[0]
+	}
+	return nil
+}
+
+// displayOverride maps a function that was found by signature (renamed anchor) to the stable
+// name of its anchor.
+var displayOverride = map[*ssa.Function]string{}
+
+// ResolveAnchors looks every recorded anchor up once so that renamed anchors are known before
+// any rule reports or matches by name.
+func (p *Program) ResolveAnchors() {
+	for key := range AnchorSignatures {
+		parts := strings.SplitN(key, "|", 3)
+		if len(parts) == 3 {
+			p.LookupFunc(parts[0], parts[1], parts[2])
+		}
+	}
+}
+
+// anchorSig renders receiver kind + signature of a function (names of parameters excluded).
+func anchorSig(fn *ssa.Function) string {
+	s := ""
+	if r := fn.Signature.Recv(); r != nil {
+		s = "(" + r.Type().String() + ")"
+	}
+	sig := fn.Signature
+	var ps, rs []string
+	for i := 0; i < sig.Params().Len(); i++ {
+		ps = append(ps, sig.Params().At(i).Type().String())
+	}
+	for i := 0; i < sig.Results().Len(); i++ {
+		rs = append(rs, sig.Results().At(i).Type().String())
+	}
+	v := ""
+	if sig.Variadic() {
+		v = "..."
+	}
+	return s + "func(" + strings.Join(ps, ",") + v + ")(" + strings.Join(rs, ",") + ")"
+}
+
+func (p *Program) lookupFuncByName(pkgRel, recv, name string) *ssa.Function {
 	pk := p.Pkg(pkgRel)
 	if pk == nil {
 		return nil
@@ -221,6 +316,14 @@ func (p *Program) LookupFunc(pkgRel, recv, name string) *ssa.Function {
 func FuncName(fn *ssa.Function) string {
 	if fn == nil {
 		return "<nil>"
+	}
+	if d, ok := displayOverride[fn]; ok {
+		return d
+	}
+	if par := fn.Parent(); par != nil {
+		if _, ok := displayOverride[par]; ok && strings.HasPrefix(fn.Name(), par.Name()) {
+			return FuncName(par) + fn.Name()[len(par.Name()):]
+		}
 	}
 	s := fn.String()
 	s = strings.ReplaceAll(s, ModPath+"/", "")
